@@ -1634,6 +1634,7 @@ def _opt4_workflow(
 
         # Finalizing
         LogErrorPass(),
+        ApplyPlacement(),
     ]
 
 
@@ -1695,6 +1696,7 @@ def _synthesis_workflow(
     workflow += [
         SetModelPass(model),
         SetTargetPass(input),
+        GreedyPlacementPass(),
         synthesis,
         build_single_qudit_retarget_workflow(
             optimization_level,
@@ -1704,6 +1706,7 @@ def _synthesis_workflow(
             error_sim_size,
         ),
         scan if optimization_level >= 2 else NOOPPass(),
+        ApplyPlacement(),
     ]
 
     return Workflow(workflow, name='Off-the-Shelf Unitary Synthesis')
@@ -1803,8 +1806,10 @@ def _stateprep_workflow(
     workflow += [
         SetModelPass(model),
         SetTargetPass(state),
+        GreedyPlacementPass(),
         synthesis,
         scan if optimization_level >= 2 else NOOPPass(),
+        ApplyPlacement(),
     ]
 
     return Workflow(workflow, name='Off-the-Shelf State Synthesis')
@@ -1901,8 +1906,10 @@ def _statemap_workflow(
     workflow += [
         SetModelPass(model),
         SetTargetPass(state),
+        GreedyPlacementPass(),
         synthesis,
         scan if optimization_level >= 2 else NOOPPass(),
+        ApplyPlacement(),
     ]
 
     return Workflow(workflow, name='Off-the-Shelf State System Synthesis')
